@@ -245,6 +245,9 @@ def scanner_obligations(ctx, rule_prefix: str = "") -> bool:
         for n in ast.walk(v):
             if isinstance(n, ast.Subscript) and isinstance(n.slice, ast.Slice) and dotted(n.value) == s.hay:
                 lo = n.slice.lower
+                if n.slice.upper is not None and _c(lo if lo is not None else ast.Constant(value=0)) is not None \
+                        and _c(lo if lo is not None else ast.Constant(value=0)) == _c(n.slice.upper):
+                    continue  # `d[0:0]`-style constant empty slice: an empty carry, nothing to bound
                 k = lo.operand if isinstance(lo, ast.UnaryOp) else (lo.right if isinstance(lo, ast.BinOp) else None)
                 kp = _expand(f.node, k) if k is not None else None
                 want = SymPoly.atom(f"len({s.ps[1]})") - SymPoly.const(1)
@@ -259,45 +262,133 @@ def scanner_obligations(ctx, rule_prefix: str = "") -> bool:
             bst = cfg.stmt[b]
             dc = dominating_conditions(ctx, f, bst)
             conds = [("" if pol else "not ") + t for t, pol, n in dc]
-            ok = any((t == s.block and not pol) or (s.ps[3] in t and pol) for t, pol, n in dc)
+            ok = any((t == s.block and not pol) or (pol and n is not None and _mentions(inline(f.node, n, stop=frozenset(x for x in (posvar, pvar, s.carry, s.hay, s.block) if x)), s.ps[3])) for t, pol, n in dc)
             _emit(ctx, P, "R4", "LOOP", f, "outer exit " + ("on empty read" if any(t == s.block and not pol for t, pol, n in dc) else "on limit" if ok else "under " + "; ".join(conds[-2:])), ok,
                   f"outer loop exit under {conds}: must be an empty read or the limit test", bst)
     # ---- R5: limit tests
+    # A limit test is any `if` / loop-header test that (with single-definition temporaries expanded, so that a hoisted
+    # `limit = max_offset if max_offset else None` is seen through) mentions max_offset.  Its stop condition is judged in
+    # the two cases of the documented contract "a falsy max_offset means no limit": with max_offset falsy the condition
+    # must be false (the limit does not apply), with max_offset truthy it must be exactly `<block start or match index> >
+    # max_offset` (strict; both are <= the last byte of the occurrence).
     n5 = 0
+    keep = frozenset(x for x in (posvar, pvar, s.carry, s.hay, s.block) if x)
     for st in statements(f.node):
-        if isinstance(st, (ast.If, ast.While)) and s.ps[3] in src(st.test):
-            # the condition under which scanning stops: an `if` whose true branch leaves, or the negated loop header;
-            # which edge leaves is decided on the CFG (the edge from which the yield can no longer be reached this round)
-            cond = nnf(st.test, negate=isinstance(st, ast.While))
-            if isinstance(st, ast.If):
-                te, fe = s.cfg.edge_node(st, "true"), s.cfg.edge_node(st, "false")
-                ynodes = [s.cfg.node(s.fv.stmt_of(y)) for y in s.yields]
-                t_cont = any(s.cfg.reaches(te, yn) for yn in ynodes) and any(isinstance(x, (ast.Break, ast.Return, ast.Continue)) for b in st.orelse for x in ast.walk(b))
-                if t_cont or (not any(isinstance(x, (ast.Break, ast.Return)) for b in st.body for x in ast.walk(b)) and any(isinstance(x, (ast.Break, ast.Return)) for b in st.orelse for x in ast.walk(b))):
-                    cond = nnf(st.test, negate=True)
-            for dj in disjuncts(cond):
-                if s.ps[3] not in src(dj):
-                    continue
-                n5 += 1
-                cj = conjuncts(dj)
-                truthy = any(dotted(c) == s.ps[3] for c in cj)
-                cmp_ok = False
-                what = None
-                for c in cj:
-                    for l, op, r in compare_parts(c):
+        if not isinstance(st, (ast.If, ast.While)):
+            continue
+        test = inline(f.node, st.test, stop=keep)
+        if not _mentions(test, s.ps[3]):
+            continue
+        # the condition under which scanning stops: an `if` whose true branch leaves, or the negated loop header;
+        # which edge leaves is decided on the CFG (the edge from which the yield can no longer be reached this round)
+        negate = isinstance(st, ast.While)
+        if isinstance(st, ast.If):
+            te, fe = s.cfg.edge_node(st, "true"), s.cfg.edge_node(st, "false")
+            ynodes = [s.cfg.node(s.fv.stmt_of(y)) for y in s.yields]
+            t_cont = any(s.cfg.reaches(te, yn) for yn in ynodes) and any(isinstance(x, (ast.Break, ast.Return, ast.Continue)) for b in st.orelse for x in ast.walk(b))
+            if t_cont or (not any(isinstance(x, (ast.Break, ast.Return)) for b in st.body for x in ast.walk(b)) and any(isinstance(x, (ast.Break, ast.Return)) for b in st.orelse for x in ast.walk(b))):
+                negate = True
+        cond = nnf(test, negate=negate)
+        for dj in disjuncts(cond):
+            if not _mentions(dj, s.ps[3]):
+                continue
+            n5 += 1
+            off = _under(dj, s.ps[3], False)
+            on = _under(dj, s.ps[3], True)
+            truthy = off is False
+            cmp_ok, what = False, None
+            if isinstance(on, ast.AST):
+                parts = [c for c in conjuncts(on)]
+                if len(parts) == 1:
+                    for l, op, r in compare_parts(parts[0]):
                         if dotted(r) == s.ps[3] and isinstance(op, ast.Gt) and dotted(l) in (posvar, pvar):
-                            cmp_ok = True
-                            what = dotted(l)
-                        elif s.ps[3] in (dotted(l), dotted(r)):
-                            what = src(c)
-                _emit(ctx, P, "R5", "ABS", f, "limit test " + src(dj), truthy and cmp_ok,
-                      f"limit applies only when max_offset is truthy={truthy}; compares `{what} > max_offset` strictly with the block start or the match index (both <= the occurrence's last byte)={cmp_ok}", st)
+                            cmp_ok, what = True, dotted(l)
+                what = what or src(on)
+            else:
+                what = repr(on)
+            _emit(ctx, P, "R5", "ABS", f, "limit test " + src(nnf(st.test, negate=negate) if len(disjuncts(cond)) == 1 else dj), truthy and cmp_ok,
+                  f"with max_offset falsy the stop condition is {'false' if truthy else src(off) if isinstance(off, ast.AST) else off} (must be false: no limit); "
+                  f"with max_offset truthy it is `{what}` (must be `<block start or match index> > max_offset`, strict)={cmp_ok}", st)
     d = param_defaults(f.node)
     _emit(ctx, P, "R5", "TABLE", f, "max_offset default", _c(d.get(s.ps[3])) == 0, f"default max_offset={src(d.get(s.ps[3]))} (0 = no limit)")
     seeks = [c for c in fn_calls(f.node) if isinstance(c.func, ast.Attribute) and c.func.attr == "seek"]
     ok = len(seeks) == 1 and dotted(seeks[0].args[0]) == s.ps[2] and guarded_by(ctx, f, seeks[0], lambda t: True if any(dotted(l) == s.ps[2] and isinstance(op, ast.IsNot) for l, op, r in compare_parts(t)) else None)
     _emit(ctx, P, "R3", "CURSOR", f, "fp.seek(start_offset)", bool(ok), "scan starts at start_offset when given, else at the current position" if ok else "start handling is not `if start_offset is not None: fp.seek(start_offset)`")
     return r1 and r3
+
+
+def _mentions(e: ast.AST, name: str) -> bool:
+    return any(isinstance(n, ast.Name) and n.id == name for n in ast.walk(e))
+
+
+def _under(e: ast.AST, name: str, truthy: bool):
+    """Partial evaluation of a boolean expression under "`name` is truthy" / "`name` is falsy (0 or None)": returns True,
+    False or the residual expression.  Conditional expressions and and/or/not are resolved where their tests are decided;
+    `<None constant> is [not] None` is decided; for the truthy case `name is [not] None` is decided as well."""
+    def val(x):
+        # value context: resolve conditional expressions whose test is decided
+        if isinstance(x, ast.IfExp):
+            t = boolean(x.test)
+            if t is True:
+                return val(x.body)
+            if t is False:
+                return val(x.orelse)
+            return x
+        if isinstance(x, ast.BoolOp) and isinstance(x.op, ast.Or) and len(x.values) == 2:
+            t = boolean(x.values[0])
+            if t is False and isinstance(x.values[0], ast.Name):
+                return val(x.values[1])  # `name or d` with name falsy
+            if t is True:
+                return val(x.values[0])
+        return x
+
+    def boolean(x):
+        if isinstance(x, ast.Constant):
+            return bool(x.value)
+        if isinstance(x, ast.Name) and x.id == name:
+            return truthy
+        if isinstance(x, ast.UnaryOp) and isinstance(x.op, ast.Not):
+            t = boolean(x.operand)
+            if t is True or t is False:
+                return not t
+            return ast.UnaryOp(op=ast.Not(), operand=t)
+        if isinstance(x, ast.BoolOp):
+            is_and = isinstance(x.op, ast.And)
+            rest = []
+            for v in x.values:
+                t = boolean(v)
+                if t is (not is_and):
+                    return not is_and
+                if t is is_and:
+                    continue
+                rest.append(t)
+            if not rest:
+                return is_and
+            return rest[0] if len(rest) == 1 else ast.BoolOp(op=x.op, values=rest)
+        if isinstance(x, ast.Compare) and len(x.ops) == 1:
+            l, r = val(x.left), val(x.comparators[0])
+            op = x.ops[0]
+            if isinstance(op, (ast.Is, ast.IsNot)):
+                for a, b in ((l, r), (r, l)):
+                    if isinstance(b, ast.Constant) and b.value is None:
+                        if isinstance(a, ast.Constant):
+                            return (a.value is None) == isinstance(op, ast.Is)
+                        if isinstance(a, ast.Name) and a.id == name and truthy:
+                            return isinstance(op, ast.IsNot)
+            if isinstance(op, (ast.Eq, ast.NotEq)):
+                for a, b in ((l, r), (r, l)):
+                    if isinstance(a, ast.Name) and a.id == name and truthy and isinstance(b, ast.Constant) and (b.value is None or b.value == 0) and not isinstance(b.value, bool):
+                        return isinstance(op, ast.NotEq)
+            return ast.Compare(left=l, ops=[op], comparators=[r])
+        if isinstance(x, ast.IfExp):
+            t = boolean(x.test)
+            if t is True:
+                return boolean(x.body)
+            if t is False:
+                return boolean(x.orelse)
+        return x
+
+    return boolean(e)
 
 
 def _expand(fn, e, depth=0) -> Optional[SymPoly]:
